@@ -21,6 +21,7 @@
 #include <concepts>
 #include <functional>
 #include <string>
+#include <tuple>
 #include <type_traits>
 #include <utility>
 
@@ -50,6 +51,9 @@ union U {
 struct Other { };
 struct PtrLike {
     X& operator*() const;
+};
+struct PtrToConst {
+    X const& operator*() const;
 };
 
 // the wrapper family of one library
@@ -86,11 +90,12 @@ struct StdLib {
     using result = typename std::invoke_result<F, A...>::type;
 };
 
-constexpr std::size_t NOBJ = 33;
+constexpr std::size_t NOBJ = 37; // 33..36 added in round 2: volatile object, pointer to const derived, rvalue pointer-like, pointer-like to const
 constexpr char const* obj_names[NOBJ] = {"X", "X&", "X const&", "X&&", "X const", "X*", "X const*", "X* const&", "D", "D&", "D const&", "D*", "U", "U&", "U const&", "U*",
     "Other&", "Other*", "PtrLike", "PtrLike const&", "reference_wrapper<X>", "reference_wrapper<X>&", "reference_wrapper<X> const", "reference_wrapper<X> const&",
     "reference_wrapper<X> const&&", "reference_wrapper<X>&&", "reference_wrapper<X const>", "reference_wrapper<X const> const&", "reference_wrapper<D>",
-    "reference_wrapper<D> const&", "reference_wrapper<U>", "reference_wrapper<U> const&", "reference_wrapper<Other> const&"};
+    "reference_wrapper<D> const&", "reference_wrapper<U>", "reference_wrapper<U> const&", "reference_wrapper<Other> const&", "X volatile&", "D const*", "PtrLike&&",
+    "PtrToConst"};
 
 template <typename L, std::size_t I>
 struct Obj;
@@ -132,6 +137,10 @@ OBJ(29, typename L::template rw<D> const&)
 OBJ(30, typename L::template rw<U>)
 OBJ(31, typename L::template rw<U> const&)
 OBJ(32, typename L::template rw<Other> const&)
+OBJ(33, X volatile&)
+OBJ(34, D const*)
+OBJ(35, PtrLike&&)
+OBJ(36, PtrToConst)
 #undef OBJ
 
 constexpr std::size_t NF = 11;
@@ -208,11 +217,101 @@ constexpr auto table_for()
     return t;
 }
 
+// ---------------------------------------------------------------------------------------------------------------
+// round 2: unwrap_reference / unwrap_ref_decay (both spellings).  Like INVOKE, each library only knows its own
+// reference_wrapper, so the argument list is built per library and a result is encoded as its index in a per-library
+// candidate list (every argument type and every type one of the two traits can produce from it).
+template <typename L>
+struct UnwrapLists {
+    template <typename T>
+    using rw   = typename L::template rw<T>;
+    using args = std::tuple<int*, int, int&, int const, int const&, int&&, X, X&, int[3], int (&)[3], void(), void (&)(), rw<int>, rw<int>&, rw<int> const,
+        rw<int> const&, rw<int>&&, rw<int> volatile, rw<int> const volatile&, rw<int const>, rw<int const> const&, rw<X>, rw<X const>&&, rw<rw<int>>,
+        rw<rw<int>> const&, rw<int>*, rw<int>[2], rw<int> (&)[2], rw<void()>, rw<int[3]> const&>;
+    // candidates: the arguments themselves, then what decay / unwrapping adds
+    using extra = std::tuple<int const&, X const&, int*, void (*)(), rw<int>&, rw<int>*, rw<int>* const, int const, X, void (&)(), int (&)[3], rw<int>**, rw<rw<int>>>;
+};
+constexpr std::size_t NUW = std::tuple_size_v<UnwrapLists<StdLib>::args>;
+constexpr char const* uw_names[NUW] = {"int*", "int", "int&", "int const", "int const&", "int&&", "X", "X&", "int[3]", "int (&)[3]", "void()", "void (&)()",
+    "reference_wrapper<int>", "reference_wrapper<int>&", "reference_wrapper<int> const", "reference_wrapper<int> const&", "reference_wrapper<int>&&",
+    "reference_wrapper<int> volatile", "reference_wrapper<int> const volatile&", "reference_wrapper<int const>", "reference_wrapper<int const> const&",
+    "reference_wrapper<X>", "reference_wrapper<X const>&&", "reference_wrapper<reference_wrapper<int>>", "reference_wrapper<reference_wrapper<int>> const&",
+    "reference_wrapper<int>*", "reference_wrapper<int>[2]", "reference_wrapper<int> (&)[2]", "reference_wrapper<void()>", "reference_wrapper<int[3]> const&"};
+
+template <typename T, typename Tuple>
+struct index_in;
+template <typename T, typename... C>
+struct index_in<T, std::tuple<C...>> {
+    static constexpr int value = [] {
+        bool const hit[] = {std::is_same_v<T, C>...};
+        for (std::size_t i = 0; i < sizeof...(C); ++i) {
+            if (hit[i]) { return int(i); }
+        }
+        return -1;
+    }();
+};
+template <typename L, typename T>
+constexpr int code_of()
+{
+    using A = typename UnwrapLists<L>::args;
+    using E = typename UnwrapLists<L>::extra;
+    if constexpr (index_in<T, A>::value >= 0) {
+        return index_in<T, A>::value;
+    } else if constexpr (index_in<T, E>::value >= 0) {
+        return 100 + index_in<T, E>::value;
+    } else {
+        return -1;
+    }
+}
+struct UwCell {
+    int s_u, e_u, e_ut, s_d, e_d, e_dt; // unwrap_reference (std, etl ::type, etl _t), unwrap_ref_decay
+};
+template <std::size_t I>
+constexpr UwCell uw_cell()
+{
+    using SA = std::tuple_element_t<I, UnwrapLists<StdLib>::args>;
+    using EA = std::tuple_element_t<I, UnwrapLists<EtlLib>::args>;
+    return {code_of<StdLib, typename std::unwrap_reference<SA>::type>(), code_of<EtlLib, typename etl::unwrap_reference<EA>::type>(),
+        code_of<EtlLib, etl::unwrap_reference_t<EA>>(), code_of<StdLib, typename std::unwrap_ref_decay<SA>::type>(),
+        code_of<EtlLib, typename etl::unwrap_ref_decay<EA>::type>(), code_of<EtlLib, etl::unwrap_ref_decay_t<EA>>()};
+}
+constexpr auto uw_table()
+{
+    std::array<UwCell, NUW> t{};
+    [&]<std::size_t... K>(std::index_sequence<K...>) { ((t[K] = uw_cell<K>()), ...); }(std::make_index_sequence<NUW>{});
+    return t;
+}
+
 } // namespace
 
 int main(int argc, char** argv)
 {
     mc::Main m(argc, argv);
+    m.job("unwrap-reference", {"quick", "thorough"}, [](mc::Reporter& r) {
+        static constexpr auto t = uw_table();
+        std::uint64_t ev = 0, nt = 0;
+        for (std::size_t k = 0; k < t.size(); ++k) {
+            UwCell const& c       = t[k];
+            std::string const a   = cat("<", uw_names[k], ">");
+            bool const wrapper    = std::string(uw_names[k]).rfind("reference_wrapper", 0) == 0;
+            std::string const cls = !wrapper ? "not_a_wrapper" : (std::string(uw_names[k]).find_first_of("&*[", std::string(uw_names[k]).rfind('>')) != std::string::npos ? "wrapper_ref_ptr_array" : (std::string(uw_names[k]).find("const", std::string(uw_names[k]).rfind('>')) != std::string::npos || std::string(uw_names[k]).find("volatile", std::string(uw_names[k]).rfind('>')) != std::string::npos ? "cv_wrapper" : "wrapper"));
+            ev += 4;
+            if (c.s_u != int(k)) { ++nt; }
+            if (c.s_d != int(k)) { ++nt; }
+            r.outcome(mc::hash_str(cat(c.s_u, "/", c.s_d)));
+            if (c.s_u < 0 || c.s_d < 0) {
+                r.not_exhaustive(cat("harness: std result of unwrap_reference / unwrap_ref_decay", a, " is not in the candidate list"));
+                continue;
+            }
+            if (c.e_u != c.s_u) { r.violation("C15", "unwrap_reference<T>::type", cls, cat("unwrap_reference", a, "::type"), cat("result code etl ", c.e_u, ", std ", c.s_u, " (index in the argument list; 100+ = decayed / unwrapped candidates; -1 = another type)")); }
+            if (c.e_ut != c.s_u) { r.violation("C15", "unwrap_reference_t<T>", cls, cat("unwrap_reference_t", a), cat("result code etl ", c.e_ut, ", std ", c.s_u)); }
+            if (c.e_d != c.s_d) { r.violation("C15", "unwrap_ref_decay<T>::type", cls, cat("unwrap_ref_decay", a, "::type"), cat("result code etl ", c.e_d, ", std ", c.s_d)); }
+            if (c.e_dt != c.s_d) { r.violation("C15", "unwrap_ref_decay_t<T>", cls, cat("unwrap_ref_decay_t", a), cat("result code etl ", c.e_dt, ", std ", c.s_d)); }
+        }
+        r.sample("unwrap_ref_decay<reference_wrapper<int> const&> -> int& ... 30 argument types x {unwrap_reference, unwrap_ref_decay} x {::type, _t}");
+        r.count("evaluations", ev);
+        r.count("distinct_nontrivial", nt);
+    });
     m.job("invoke-member-pointers", {"quick", "thorough"}, [](mc::Reporter& r) {
         std::uint64_t ev = 0, nt = 0;
         [&]<std::size_t... FI>(std::index_sequence<FI...>) {
@@ -237,7 +336,7 @@ int main(int argc, char** argv)
             }()),
                 ...);
         }(std::make_index_sequence<NF>{});
-        r.sample("is_invocable<int (X::*)(int) const, reference_wrapper<X> const&, int> ... 11 member pointers x 33 object kinds x 3 trailing lists");
+        r.sample("is_invocable<int (X::*)(int) const, reference_wrapper<X> const&, int> ... 11 member pointers x 37 object kinds x 3 trailing lists");
         r.count("evaluations", ev);
         r.count("distinct_nontrivial", nt);
     });
